@@ -494,6 +494,11 @@ pub fn unary_mix() -> Vec<Expr> {
     v.push(Expr::Index(Box::new(id("m")), Index::List(vec![IndexItem::E(int(0)), IndexItem::E(bin(BinOp::Add, id("a"), int(1)))])));
     v.push(Expr::Index(Box::new(Expr::Index(Box::new(id("m")), Index::List(vec![IndexItem::E(int(0))]))), Index::List(vec![IndexItem::E(int(1))])));
     v.push(Expr::Index(Box::new(Expr::Call(s("f1"), vec![id("a"), id("b")])), Index::List(vec![IndexItem::E(int(1))])));
+    // several index operators on a base that is not a plain name
+    let idx1 = |e: Expr, i: u64| Expr::Index(Box::new(e), Index::List(vec![IndexItem::E(int(i))]));
+    v.push(idx1(idx1(Expr::Call(s("f1"), vec![id("a"), id("b")]), 0), 1));
+    v.push(idx1(idx1(Expr::Paren(Box::new(bin(BinOp::Add, id("a"), id("b")))), 0), 1));
+    v.push(idx1(idx1(Expr::Cast(Ty::w("bit", 8), Box::new(id("a"))), 2), 3));
     v.push(Expr::Index(Box::new(id("m")), Index::List(vec![IndexItem::Range(bin(BinOp::Add, id("a"), int(1)), Some(un(UnOp::Neg, int(1))), bin(BinOp::Mul, id("b"), int(2)))])));
     v
 }
